@@ -619,7 +619,8 @@ pub fn unique_keys(p: &Ov) -> bool {
 
 pub fn compare_value(pred: &Pred, run: &Run) -> Option<Diff> {
     match (&pred.value, &run.outcome) {
-        (_, Outcome::Panic(_)) => None,
+        // the statement names an outcome (a value or reports); a panic is neither (C12 reports it as well)
+        (_, Outcome::Panic(m)) => Some(Diff { rule: "panicked-where-an-outcome-is-specified", detail: format!("the call panicked: {m}"), loc: vec![] }),
         (Some(v), Outcome::Ok(o)) => {
             if v != o {
                 Some(Diff { rule: "value-differs", detail: format!("got {} expected {}", o.show(), v.show()), loc: vec![] })
